@@ -9,6 +9,8 @@ namespace GV.GoImp
 theorem copy_make (s : Bytes) : copy (makeBytes (len s)) s = s := by
   simp [copy, makeBytes, len]
 
+@[simp] theorem bytesOfString_eq (s : GoString) : bytesOfString s = s := rfl
+
 variable {V : Type}
 
 theorem lookupL_none [Inhabited V] (l : List (GoString × V)) (k : GoString)
@@ -226,5 +228,214 @@ theorem init_refines (h : Hash) (names : List Bytes) (hnd : names.Nodup) :
     by_cases hi : i < names.length
     · simp [initEntry, hi, absChal]
     · simp [hi]
+
+/-! ### ComputeChallenge -/
+
+/-- hasher state after the loop over the bound values (stops at the first refused `Write`) -/
+def hashAfter : List Bytes → Hash → Hash
+  | [], h => h
+  | b :: bs, h => match W b with
+    | none => h
+    | some a => hashAfter bs { written := h.written ++ [a] }
+
+/-- the loop over the bound values: every `Write` accepted (the hasher has absorbed `absorb W bs` more) or the first refused
+one makes the function return the hash error; only the hasher changes -/
+theorem loop1_eq (bs : List Bytes) (h0 : Hash) (m : GoMap challenge) (p : Option challenge) :
+    ComputeChallenge.loop1 W bs { h := h0, challenges := m, previous := p } =
+      ({ h := hashAfter W bs h0, challenges := m, previous := p },
+        match absorb W bs with
+        | none => some ([], GoImp.Err.hashWrite)
+        | some _ => none) := by
+  induction bs generalizing h0 with
+  | nil => rfl
+  | cons b bs ih =>
+    cases hb : W b with
+    | none => simp [absorb, ComputeChallenge.loop1, Hash.Write, hb, hashAfter]
+    | some a =>
+      simp only [absorb, ComputeChallenge.loop1, Hash.Write, hb, hashAfter]
+      cases hr : absorb W bs <;> simp [ih, hr]
+
+theorem hashAfter_written (bs : List Bytes) (h0 : Hash) (r : Bytes) (h : absorb W bs = some r) :
+    (hashAfter W bs h0).written.flatten = h0.written.flatten ++ r := by
+  induction bs generalizing h0 r with
+  | nil => simp [absorb] at h; subst h; simp [hashAfter]
+  | cons b bs ih =>
+    cases hb : W b with
+    | none => simp [absorb, hb] at h
+    | some a =>
+      cases hr : absorb W bs with
+      | none => simp [absorb, hb, hr] at h
+      | some r' =>
+        simp [absorb, hb, hr] at h; subst h
+        simp [hashAfter, hb, ih _ _ hr]
+
+/-- the tail of `ComputeChallenge` from the loop over the bound values on -/
+theorem cont1_eq (h0 : Hash) (m : GoMap challenge) (p : Option challenge) (n : Bytes) (c : challenge) :
+    ComputeChallenge.cont1 W H { h := h0, challenges := m, previous := p } n c =
+      match absorb W c.bindings with
+      | none => ({ h := hashAfter W c.bindings h0, challenges := m, previous := p }, ([], GoImp.Err.hashWrite))
+      | some r =>
+        ({ h := hashAfter W c.bindings h0,
+           challenges := m.set n { c with value := H (h0.written.flatten ++ r), isComputed := true },
+           previous := some { c with value := H (h0.written.flatten ++ r), isComputed := true } },
+         (H (h0.written.flatten ++ r), GoImp.Err.nil)) := by
+  simp only [ComputeChallenge.cont1, loop1_eq]
+  cases hr : absorb W c.bindings with
+  | none => rfl
+  | some r => simp [Hash.Sum, copy_make, hashAfter_written W _ _ _ hr]
+
+/-- storing a freshly computed value keeps the invariant; its abstraction -/
+theorem inv_store (t : GTranscript) (n v : Bytes) (i : Nat) (c : challenge) (h' : Hash) (hi : Inv t)
+    (hf : t.challenges.entries.findIdx? (fun e => e.1 = n) = some i) (hc : t.challenges.entries[i]? = some (n, c)) :
+    let c' : challenge := { c with value := v, isComputed := true }
+    let t' : GTranscript := { h := h', challenges := t.challenges.set n c', previous := some c' }
+    Inv t' ∧ abs t' = { chals := (abs t).chals.set i { absChal (n, c) with value := some v }, prev := some i } := by
+  intro c' t'
+  have hilt : i < t.challenges.entries.length := (List.getElem?_eq_some_iff.mp hc).1
+  have hpos : c.position = (i : Int) := hi.pos _ _ hc
+  have he : t'.challenges.entries = t.challenges.entries.set i (n, c') := by
+    simp [t', GoMap.set, setL_some _ _ _ _ hf]
+  refine ⟨⟨?_, ?_, ?_⟩, ?_⟩
+  · rw [he, keys_set _ _ _ _ _ hc]; exact hi.nodup
+  · intro j e hj
+    rw [he] at hj
+    simp only [List.getElem?_set] at hj
+    split at hj
+    · subst_vars; simp at hj; subst hj; simpa [c'] using hpos
+    · exact hi.pos _ _ hj
+  · intro p hp
+    simp [t'] at hp; subst hp
+    refine ⟨rfl, n, ?_⟩
+    rw [he]
+    simp [c', hpos, hilt]
+  · simp only [abs, he, List.map_set]
+    simp [t', c', absChal, hpos]
+
+theorem inv_h (t : GTranscript) (h' : Hash) (hi : Inv t) :
+    Inv { h := h', challenges := t.challenges, previous := t.previous } := ⟨hi.nodup, hi.pos, hi.prev⟩
+
+@[simp] theorem abs_h (h' : Hash) (t : GTranscript) :
+    abs { h := h', challenges := t.challenges, previous := t.previous } = abs t := rfl
+
+theorem inv_abs_of_fields (t t' : GTranscript) (hc : t'.challenges = t.challenges) (hp : t'.previous = t.previous)
+    (hi : Inv t) : Inv t' ∧ abs t' = abs t := by
+  refine ⟨⟨by rw [hc]; exact hi.nodup, by rw [hc]; exact hi.pos, by rw [hc, hp]; exact hi.prev⟩, by simp [abs, hc, hp]⟩
+
+/-- the hasher after a call: untouched (unknown name, cached value) or Reset (the deferred `t.h.Reset()`) -/
+def hashOK (t t' : GTranscript) : Prop := t'.h = t.h ∨ t'.h = Hash.Reset t.h
+
+theorem compute_refines (t : GTranscript) (n : Bytes) (hi : Inv t) :
+    Inv (ComputeChallenge W H t n).1 ∧ abs (ComputeChallenge W H t n).1 = (step W H (abs t) (.compute n)).1 ∧
+    outCompute (ComputeChallenge W H t n).2 = (step W H (abs t) (.compute n)).2 ∧
+    hashOK t (ComputeChallenge W H t n).1 := by
+  simp only [step, find_abs]
+  cases hf : t.challenges.entries.findIdx? (fun e => e.1 = n) with
+  | none =>
+    have hl := lookupL_none _ _ hf
+    simp [ComputeChallenge, GoMap.lookup, hl, hi, outCompute, absErr, hashOK]
+  | some i =>
+    obtain ⟨c, hc, hl⟩ := lookupL_some _ _ _ hf
+    have hilt : i < t.challenges.entries.length := (List.getElem?_eq_some_iff.mp hc).1
+    have hac : (abs t).chals[i]? = some (absChal (n, c)) := by simp [abs, hc]
+    have hpos : c.position = (i : Int) := hi.pos _ _ hc
+    simp only [hac]
+    cases hcomp : c.isComputed with
+    | true =>
+      simp [ComputeChallenge, GoMap.lookup, hl, hcomp, hi, outCompute, absChal, copy_make, hashOK]
+    | false =>
+      have hv : (absChal (n, c)).value = none := by simp [absChal, hcomp]
+      have hnm : (absChal (n, c)).name = n := rfl
+      simp only [hv, hnm]
+      cases hWn : W n with
+      | none =>
+        simp [ComputeChallenge, GoMap.lookup, hl, hcomp, Hash.Write, Hash.Reset, hWn, inv_h, hi, outCompute, absErr, hashOK]
+      | some a =>
+        simp only []
+        by_cases hi0 : i = 0
+        · subst hi0
+          have hp0 : (c.position != 0) = false := by simp [hpos]
+          have hwr : absorb W (writes (abs t).chals 0 (absChal (n, c))) = (absorb W c.bindings).map (a ++ ·) := by
+            simp only [writes, absChal, absorb, hWn, if_true, List.nil_append]
+            cases absorb W c.bindings <;> simp
+          simp only [hwr]
+          cases hab : absorb W c.bindings with
+          | none =>
+            simp [ComputeChallenge, GoMap.lookup, hl, hcomp, Hash.Write, Hash.Reset, hWn, hp0, cont1_eq, hab,
+              inv_h, hi, outCompute, absErr, hashOK]
+          | some r =>
+            obtain ⟨hI, hA⟩ := inv_store t n (H (a ++ r)) 0 c (Hash.Reset t.h) hi hf hc
+            simp [ComputeChallenge, GoMap.lookup, hl, hcomp, Hash.Write, Hash.Reset, hWn, hp0, cont1_eq, hab,
+              outCompute, hashOK]
+            exact ⟨hI, hA⟩
+        · have hp0 : (c.position != 0) = true := by simp [hpos]; omega
+          cases hp : t.previous with
+          | none =>
+            have hm : (abs t).prev = none := by simp [abs, hp]
+            simp [ComputeChallenge, GoMap.lookup, hl, hcomp, Hash.Write, Hash.Reset, hWn, hp0, hp, hm, hi0,
+              outCompute, absErr, hashOK]
+            exact inv_abs_of_fields t _ rfl hp.symm hi
+          | some p =>
+            obtain ⟨hpc, k, hk⟩ := hi.prev p hp
+            have hpp : p.position = ((p.position.toNat : Nat) : Int) := hi.pos _ _ hk
+            generalize hj : p.position.toNat = j at hk hpp
+            have hm : (abs t).prev = some j := by simp [abs, hp, hj]
+            by_cases hji : j = i - 1
+            · have hcond : (p.position != c.position - 1) = false := by simp [hpos, hpp]; omega
+              have hwr : absorb W (writes (abs t).chals i (absChal (n, c))) =
+                  match W p.value with
+                  | none => none
+                  | some b => (absorb W c.bindings).map (fun r => a ++ (b ++ r)) := by
+                have hpv : (abs t).chals[i-1]? = some (absChal (k, p)) := by simp [abs, ← hji, hk]
+                simp only [writes, hi0, if_false, hpv, absChal, hpc, absorb, hWn, List.cons_append, List.nil_append]
+                simp only [Option.bind, if_true, Option.getD]
+                cases W p.value with
+                | none => rfl
+                | some b => cases absorb W c.bindings <;> simp
+              have hnc : ¬ (i ≠ 0 ∧ (abs t).prev ≠ some (i - 1)) := by simp [hm, hji]
+              simp only [hnc, if_false, hwr]
+              cases hWp : W p.value with
+              | none =>
+                simp [ComputeChallenge, GoMap.lookup, hl, hcomp, Hash.Write, Hash.Reset, hWn, hp0, hp, hcond, deref, hWp,
+                  outCompute, absErr, hashOK]
+                exact inv_abs_of_fields t _ rfl hp.symm hi
+              | some b =>
+                cases hab : absorb W c.bindings with
+                | none =>
+                  simp [ComputeChallenge, GoMap.lookup, hl, hcomp, Hash.Write, Hash.Reset, hWn, hp0, hp, hcond, deref, hWp,
+                    cont1_eq, hab, outCompute, absErr, hashOK]
+                  exact inv_abs_of_fields t _ rfl hp.symm hi
+                | some r =>
+                  obtain ⟨hI, hA⟩ := inv_store t n (H (a ++ (b ++ r))) i c (Hash.Reset t.h) hi hf hc
+                  simp [ComputeChallenge, GoMap.lookup, hl, hcomp, Hash.Write, Hash.Reset, hWn, hp0, hp, hcond, deref, hWp,
+                    cont1_eq, hab, outCompute, hashOK]
+                  exact ⟨hI, hA⟩
+            · have hcond : (p.position != c.position - 1) = true := by simp [hpos, hpp]; omega
+              simp [ComputeChallenge, GoMap.lookup, hl, hcomp, Hash.Write, Hash.Reset, hWn, hp0, hp, hm, hi0, hji, hcond, deref,
+                outCompute, absErr, hashOK]
+              exact inv_abs_of_fields t _ rfl hp.symm hi
+
+/-! ### histories -/
+
+/-- one call of the generated code, its result rendered as the model's `Out` -/
+def genStep (t : GTranscript) : Op → GTranscript × Out
+  | .bind n v => ((FiatShamir.Bind t n v).1, outBind (FiatShamir.Bind t n v).2)
+  | .compute n => ((ComputeChallenge W H t n).1, outCompute (ComputeChallenge W H t n).2)
+
+def genRun (t : GTranscript) : List Op → GTranscript × List Out
+  | [] => (t, [])
+  | op :: ops => ((genRun (genStep W H t op).1 ops).1, (genStep W H t op).2 :: (genRun (genStep W H t op).1 ops).2)
+
+/-! ### errors leave the transcript as it was (no invariant needed: a fact about the return paths of the Go text) -/
+
+theorem bind_error_unchanged (t : GTranscript) (n v : Bytes) (h : (FiatShamir.Bind t n v).2 ≠ GoImp.Err.nil) :
+    (FiatShamir.Bind t n v).1 = t := by
+  simp only [FiatShamir.Bind] at h ⊢
+  (repeat' split) <;> simp_all
+
+theorem compute_error_unchanged (t : GTranscript) (n : Bytes) (h : (ComputeChallenge W H t n).2.2 ≠ GoImp.Err.nil) :
+    (ComputeChallenge W H t n).1.challenges = t.challenges ∧ (ComputeChallenge W H t n).1.previous = t.previous ∧
+    (ComputeChallenge W H t n).2.1 = [] := by
+  simp only [ComputeChallenge, cont1_eq] at h ⊢
+  (repeat' split) <;> simp_all
 
 end GV.Transcript.Gen
